@@ -334,6 +334,10 @@ class TaskManager(rpu.ClientComponent):
                 tasks = list()
                 for task in self._tasks.values():
 
+                    # only the tasks bound to this pilot are affected
+                    if task.pilot != pid:
+                        continue
+
                     update = {'uid'             : task.uid,
                               'exception'       : 'RuntimeError("pilot died")',
                               'exception_detail': 'pilot %s is final' % pid,
